@@ -503,6 +503,12 @@ where
         let x_half = (left + right) / two;
         let r = tol * two.powf(n_max + n_0 - N::from_i32(j).unwrap()) - (right - left).abs() / two;
         let x_f = (f_right * left - f_left * right) / (f_right - f_left);
+        // The products overflow for huge function values: interpolate only inside the bracket
+        let x_f = if x_f >= left.min(right) && x_f <= left.max(right) {
+            x_f
+        } else {
+            x_half
+        };
         let sigma = (x_half - x_f).signum();
         let delta = k_1 * (right - left).abs().powf(k_2);
         let x_t = if delta <= (x_half - x_f).abs() {
